@@ -50,8 +50,8 @@ MANIFEST = dict(
          "meaning:abstract-function-parens (`int ()`, `T *()`, `int *(int)`: the parser always reads '(' after the pointer "
          "operators as a nested declarator; a repair needs two tokens of look-ahead in a generator-based tokenizer, not "
          "contained). Also open: gxx:/meaning:/roundtrip:name-is-a-type, now only for a PARENTHESISED declarator named like a type "
-         "(`vector<int> (string)`), same root cause. Fixed in this wave: name-is-a-type for plain declarators (c918081) and "
-         "typename-plus-specifier (462fc2a), the two other "
+         "(`vector<int> (string)`), same root cause. Fixed in this wave: name-is-a-type for plain declarators (4cf149c) and "
+         "typename-plus-specifier (c944844), the two other "
          "semantic disagreements.",
     technique="Lean 4 proof by induction over the declaration (printer/parser round trip; printer-side induction for the reference "
               "semantics) + differential correspondence model/implementation + g++/gcc oracles",
